@@ -148,6 +148,10 @@ def to_lib(v):
             b.store_ref(tlbkit.tree_to_cell(r))
         return b
     if k == 'tuple':
+        if 'share' in v:
+            if v['share'] not in SHARED:
+                SHARED[v['share']] = VmTuple([to_lib(x) for x in v['v']])
+            return SHARED[v['share']]
         return VmTuple([to_lib(x) for x in v['v']])
     c = v['c']
     kw = {}
@@ -166,6 +170,7 @@ def to_lib(v):
 
 
 BUDGET = [0]
+SHARED = {}          # 'share' label -> the one library object standing for it (per stack)
 
 
 def of_lib(x, seen=()):
@@ -204,6 +209,23 @@ def of_lib(x, seen=()):
     return {'k': 'unexpected_' + type(x).__name__}
 
 
+def use_builders(values, depth=0):
+    n = 0
+    for x in values:
+        if isinstance(x, Builder):
+            try:
+                if x.available_bits:
+                    x.store_bit(1)
+                if x.available_refs:
+                    x.store_ref(Builder().store_uint(0x5a, 8).end_cell())
+                n += 1
+            except Exception:
+                pass
+        elif isinstance(x, VmTuple) and depth < 6:
+            n += use_builders(x.list, depth + 1)
+    return n
+
+
 def generate(tier, seed, ctx):
     rng = random.Random(seed)
     q = tier == 'quick'
@@ -215,6 +237,13 @@ def generate(tier, seed, ctx):
     for _ in range(250 if q else 6000):
         stacks.append([rand_value(rng) for _ in range(rng.randint(0, 6))])
     stacks.append([{'k': 'int', 'v': big(j)} for j in range(100)])     # JSON nesting limit of the TLC reader: 255 levels
+    # values that share sub-objects (one tuple object reachable twice: acyclic, and a perfectly good value): marked 'share' so that
+    # to_lib hands the library the SAME object at every occurrence (Lisp-style lists over one nil, pairs of one tuple)
+    nil = {'k': 'tuple', 'v': [], 'share': 'nil'}
+    pair = {'k': 'tuple', 'v': [{'k': 'int', 'v': big(7)}, {'k': 'null'}], 'share': 'p'}
+    stacks.append([{'k': 'tuple', 'v': [pair, pair]}])
+    stacks.append([{'k': 'tuple', 'v': [{'k': 'tuple', 'v': [{'k': 'int', 'v': big(1)}, nil]}, {'k': 'tuple', 'v': [{'k': 'int', 'v': big(2)}, nil]}, nil]}])
+    stacks.append([{'k': 'tuple', 'v': [pair, {'k': 'tuple', 'v': [{'k': 'tuple', 'v': [pair]}]}]}, pair])
     # every present/absent combination of the four optional parts of vm_ctl_data, zero values included
     code = {'b': [1, 0, 1, 1, 0, 0, 0, 1], 'r': [{'b': [1], 'r': []}]}
     quit0 = {'k': 'cont', 'c': 'vmc_quit', 'exit_code': big(0)}
@@ -236,7 +265,14 @@ def generate(tier, seed, ctx):
         er = rng.randint(0, len(t['r']))
         wins.append([{'k': 'slicewin', 't': t, 'sb': rng.randint(0, eb), 'eb': eb, 'sr': rng.randint(0, er), 'er': er}] + ([rand_value(rng)] if rng.random() < 0.3 else []))
     stacks += wins
-    jobs = [{'id': i + 1, 'type': 'VmStackL', 'val': s} for i, s in enumerate(stacks)]
+    def clean(v):
+        if isinstance(v, dict):
+            return {k: clean(x) for k, x in v.items() if k != 'share'}
+        if isinstance(v, list):
+            return [clean(x) for x in v]
+        return v
+    originals = {i + 1: s for i, s in enumerate(stacks)}
+    jobs = [{'id': i + 1, 'type': 'VmStackL', 'val': clean(s)} for i, s in enumerate(stacks)]
     encs = vlib.tlc_map('TlbEncode.tla', jobs, os.path.join(ctx['work'], 'enc'))
     out = []
     for j in jobs:
@@ -248,7 +284,8 @@ def generate(tier, seed, ctx):
         try:
             if rec is None:
                 raise StopIteration
-            data = [to_lib(v) for v in val]
+            SHARED.clear()
+            data = [to_lib(v) for v in originals[j['id']]]
             c1 = VmStack.serialize(data)
             after = [of_lib(x) for x in data]
             c2 = VmStack.serialize(data)
@@ -264,10 +301,15 @@ def generate(tier, seed, ctx):
         rec = {'op': 'vm_parse', 'val': val}
         try:
             enc_cell = tlbkit.tree_to_cell(encs[j['id']]['encs'][0]['tree'])
+            src_before = tlbkit.cell_tree(enc_cell)
             back = VmStack.deserialize(enc_cell.begin_parse())
             rec['back'] = [of_lib(x) for x in back]
+            # the caller goes on to USE what it got: every builder among the parsed values (also inside tuples) takes another bit and
+            # another reference.  That is the caller's business: the cell it parsed from, and a second parse of it, are unaffected
+            used = use_builders(back)
             rec['back2'] = [of_lib(x) for x in VmStack.deserialize(enc_cell.begin_parse())]      # parsing again gives the same values
-            rec['back_again'] = [of_lib(x) for x in back] == rec['back']                          # and does not disturb the first result
+            rec['back_again'] = bool(used) or [of_lib(x) for x in back] == rec['back']                  # and does not disturb the first result
+            rec['src_same'] = bool(tlbkit.cell_tree(enc_cell) == src_before and tlbkit.cell_tree(Cell.one_from_boc(enc_cell.to_boc())) == src_before)
         except RecursionError:
             raise
         except Exception as e:
@@ -290,7 +332,7 @@ def generate(tier, seed, ctx):
              [{'k': 'null'}, {'k': 'tuple', 'v': [{'k': 'builder', 't': {'b': [1, 0, 1], 'r': []}}, {'k': 'int', 'v': big(5)}]}],
              [{'k': 'tuple', 'v': [{'k': 'tuple', 'v': [{'k': 'tuple', 'v': []}]}]}]]
     done = 0
-    for val in fixed + stacks:
+    for val in fixed + [clean(x) for x in stacks]:
         if done >= (40 if q else 600) or any(v['k'] == 'slicewin' for v in val):
             continue
         cand = [(i, p, kind) for i, v in enumerate(val) for p, kind in targets(v, [], 0)]
